@@ -27,15 +27,15 @@ import (
 // Everything that cannot be resolved renders as opaque#n.
 
 type Describer struct {
-	p        *Prog
-	memo     map[memoKey]string
-	inCall   int    // nesting depth inside call arguments
-	full     bool   // render nested calls in full (used to fingerprint elided calls)
-	PhiByName bool  // Lin: name loop-carried φ-nodes by SSA register (identity within one function)
-	under    *Reach // when set, φ-nodes only merge the edges that are reachable in this walk
-	busy     map[ssa.Value]bool
-	allocIdx map[*ssa.Alloc]int
-	maxDepth int
+	p         *Prog
+	memo      map[memoKey]string
+	inCall    int    // nesting depth inside call arguments
+	full      bool   // render nested calls in full (used to fingerprint elided calls)
+	PhiByName bool   // Lin: name loop-carried φ-nodes by SSA register (identity within one function)
+	under     *Reach // when set, φ-nodes only merge the edges that are reachable in this walk
+	busy      map[ssa.Value]bool
+	allocIdx  map[*ssa.Alloc]int
+	maxDepth  int
 }
 
 type memoKey struct {
